@@ -6,7 +6,7 @@ SEARCHES = ["h/a/x/*/*", "h/a/x/v1/y", "h/a/x/v1/m", "h/a/**", "h/a/x/>/m", "h/*
 
 def x_obligations(tier):
     o = []
-    T = 170 if tier == "quick" else 1500
+    T = 170 if tier == "quick" else 600
     firsts = [(0, 0), (2, 2)] if tier == "quick" else [(0, 0), (2, 2), (1, 1), (4, 3), (3, 0)]
     for si, s in enumerate(SEARCHES):
         for fi, (a1, e1) in enumerate(firsts):
